@@ -105,22 +105,35 @@ def write_switch8(needs_closed):
                 fh.write(txt)
 
 
+def set_sticky(path, sticky):
+    """Rewrite the definition of sw_fallback_sticky in Gen/SwitchC07.v (same text C07's plugin writes)."""
+    with core.Lock("coq"):
+        old = open(path).read()
+        txt, n = re.subn(r"(Definition sw_fallback_sticky : bool := )(true|false)\.", r"\g<1>%s." % ("true" if sticky else "false"), old)
+        if n != 1:
+            raise RuntimeError("Gen/SwitchC07.v has no definition of sw_fallback_sticky")
+        if txt != old:
+            with open(path, "w") as fh:
+                fh.write(txt)
+
+
 def ensure_switch(run):
     sw, err = scan_reuse()
     if err:
         run.add_corr_break("G: " + err, shape=True)
         sw = (True, True)      # the model keeps the shape it was proved for; the harness decides
     write_switch(sw)
-    # the sticky fallback flag of Stream.Flush: C07's translator and switch file (Gen/SwitchC07.v) are reused
+    # the sticky fallback flag of Stream.Flush: C07's translator and switch file (Gen/SwitchC07.v) are reused;
+    # only the line of sw_fallback_sticky is refreshed here (the other switches of that file are C07's)
     try:
         from props import C07 as c07
         sticky, _desc, serr = c07.scan_switch()
         if serr:
             run.add_corr_break("G: " + serr, shape=True)
         else:
-            c07.write_switch(sticky)
+            set_sticky(c07.SWITCH_FILE, sticky)
     except Exception as ex:  # C07's plugin not importable: keep the file that is there
-        run.notes.append("C07 translator not available: %r" % (ex,))
+        run.add_corr_break("G: the translator of Stream.Flush's fallback flag (props/C07.py scan_switch) is not usable: %r" % (ex,), shape=True)
     nc, err8 = scan_sweep()
     if err8:
         run.add_corr_break("G: " + err8, shape=True)
